@@ -73,6 +73,41 @@ def extract():
     return c
 
 
+def extract_worker():
+    w = strip(open("/repo/quic/s2n-quic-core/src/sync/worker.rs").read())
+    c = {}
+    b = body(w, "poll_acquire")
+    sw = [ORD[o] for o in re.findall(r"remaining\s*\.\s*swap\s*\([^;]*?Ordering::(\w+)", b)]
+    ld = [ORD[o] for o in re.findall(r"senders\s*\.\s*load\s*\(\s*Ordering::(\w+)", b)]
+    if len(sw) != 1 or len(ld) != 1:
+        raise vlib.ToolError("worker: poll_acquire no longer has one `remaining.swap` (in the acquire! macro) and one `senders.load`")
+    c["OrdSwap"], c["OrdSendersLoad"] = sw[0], ld[0]
+    r = b.find(".register(")
+    calls = [m.start() for m in re.finditer(r"acquire!\(\)", b)]
+    if r < 0 or not calls or calls[0] > r:
+        raise vlib.ToolError("worker: poll_acquire no longer checks, registers, checks")
+    c["RecheckAfterRegister"] = any(p > r for p in calls)
+    ld_at = b.find("senders")
+    c["FinalAcquire"] = any(p > ld_at for p in calls) if ld_at >= 0 else False
+    b = body(w, "submit")
+    fa = [ORD[o] for o in re.findall(r"remaining\s*\.\s*fetch_add\s*\([^;]*?Ordering::(\w+)", b)]
+    if len(fa) != 1:
+        raise vlib.ToolError("worker: submit no longer has one `remaining.fetch_add`")
+    c["OrdFetchAdd"] = fa[0]
+    c["WakeAfterSubmit"] = 0 <= b.find("fetch_add") < b.find("receiver.wake()")
+    b = body(w, "drop")
+    fs = [ORD[o] for o in re.findall(r"senders\s*\.\s*fetch_sub\s*\([^;]*?Ordering::(\w+)", b)]
+    if len(fs) != 1 or not (0 <= b.find("fetch_sub") < b.find("receiver.wake()")):
+        raise vlib.ToolError("worker: Drop for Sender no longer decrements `senders` and then wakes the receiver")
+    c["OrdFetchSub"] = fs[0]
+    # Clone for Sender: derived (the counter is not touched) or written out with an increment of `senders`
+    m = re.search(r"impl\s+Clone\s+for\s+Sender\s*\{", w)
+    c["CloneIncrements"] = bool(m and re.search(r"senders\s*\.\s*fetch_add", w[m.end():m.end() + 400]))
+    if not m and not re.search(r"derive\(Clone\)\]\s*pub struct Sender", w):
+        raise vlib.ToolError("worker: cannot tell how Sender is cloned")
+    return c
+
+
 def tla(v):
     return ("TRUE" if v else "FALSE") if isinstance(v, bool) else '"%s"' % v
 
@@ -89,6 +124,20 @@ def run(ctx):
         c = dict(consts, Cap=cap, Items=items, MaxBatch=2, ReceiverMayDrop=drop)
         cfg = ctx.make_cfg("MC_Spsc.cfg", "MC_Spsc_c%d_i%d.cfg" % (cap, items), {k: (v if isinstance(v, int) and not isinstance(v, bool) else tla(v)) for k, v in c.items()})
         ctx.mc("MC_Spsc", cfg=cfg, workers=12, timeout=3000)
+    # sync::worker: credits are neither lost nor duplicated, "closed" only when every handle (clones included) is gone,
+    # no lost wake-up with dropping and with long-lived senders
+    wc = extract_worker()
+    ctx.cov["worker_orderings_from_source"] = wc
+    for senders, drop in ((1, True), (1, False), (2, True), (2, False)):
+        c = dict(wc, Senders=senders, Batches=2, SendersDrop=drop)
+        cfg = ctx.make_cfg("MC_WorkerChannel.cfg", "MC_WorkerChannel_s%d_%s.cfg" % (senders, "drop" if drop else "alive"),
+                           {k: (v if isinstance(v, int) and not isinstance(v, bool) else tla(v)) for k, v in c.items()})
+        ctx.mc("MC_WorkerChannel", cfg=cfg, workers=4, timeout=1500)
+    tfw = os.path.join(ctx.out, "worker-items.ndjson")
+    rw = ctx.harness(hb, ["worker-record", ctx.seed, 300 if q else 5000, tfw], timeout=3000)
+    ctx.cov["stages"].append({"stage": "record", "what": "worker channel, 1-2 sender handles on OS threads", **{k: v for k, v in rw.items() if not k.startswith("_")}})
+    ctx.trace("Trace_WorkerItems", tfw, runs=rw["runs"], label="worker", timeout=1500)
+    ctx.count(rw["events"])
     # the real channel between two OS threads through its async API: exactly once, in order, closed only when drained
     tf = os.path.join(ctx.out, "spsc-items.ndjson")
     r = ctx.harness(hb, ["spsc-record", ctx.seed, 400 if q else 6000, tf], timeout=3000)
@@ -99,4 +148,4 @@ def run(ctx):
     ctx.count(r["events"])
     ctx.assume("memory model: release/acquire message passing with per-location coherence and vector clocks for the non-atomic slots (SeqCst is treated as AcqRel read-modify-write on the latest value; release sequences and fences are not modelled); AtomicWaker (crate atomic-waker) is an atomic register/wake object and trusted")
     ctx.assume("orderings and statement order are read from the source text of sync/spsc (state.rs, send.rs, recv.rs) at every run; a change of structure the specification does not know is a tool error asking for the specification to be updated")
-    ctx.assume("sync/worker.rs, sync/cursor.rs (socket ring cursors) and transport/wakeup_queue.rs are not modelled: this check decides the property for the spsc channel only")
+    ctx.assume("sync/cursor.rs (socket ring cursors) and transport/wakeup_queue.rs are not modelled: this check decides the property for the spsc channel and the worker credit channel")
